@@ -12,6 +12,13 @@ open Demeter Lean
 
 namespace GmxD
 
+/-- an optional boolean field (absent = false) -/
+def jFlag (j : Json) (k : String) : Bool :=
+  match j.getObjVal? k with
+  | .ok (.bool b) => b
+  | _ => false
+
+
 /-! ### v1 -/
 open GmxV1 in
 def envOf (j : Json) : Except String GmxV1.Env := do
@@ -65,7 +72,7 @@ def step1 (j : Json) : Except String Json := do
   let env ← envOf (← jObj j "env")
   let s ← state1Of (← jObj j "state")
   let op ← op1Of (← jObj j "op")
-  let (r, s') := GmxV1.step cx env s op
+  let (r, s') := GmxV1.step cx env s op (jFlag j "allowNeg")
   let tag := tag1 cx env s op
   match r with
   | .ok v => pure (Json.mkObj [("outcome", .str "ok"), ("result", ratJ v), ("state", state1J s'), ("tag", .str tag)])
@@ -120,7 +127,7 @@ def run1 (j : Json) : Except String Json := do
     `tokenSet` of the request's `env0`. -/
 def events1 (j : Json) : Except String Json := do
   let cx := jCtx j
-  let mut o : GmxV1.Obj := { row := ← envOf (← jObj j "env0"), st := ← state1Of (← jObj j "state") }
+  let mut o : GmxV1.Obj := { row := ← envOf (← jObj j "env0"), st := ← state1Of (← jObj j "state"), allowNeg := jFlag j "allowNeg" }
   let mut out : Array Json := #[]
   for e in (← jArr j "events") do
     match ← jStr e "ev" with
@@ -157,24 +164,43 @@ def fields (_ : Json) : Except String Json :=
 structure NumIO (α : Type) where
   ofRat : Rat → α
   toJ : α → Json
+  special : String → Option α      -- "nan" / "inf" / "-inf" (floats only)
 
 def floatJ (f : Float) : Json :=
   match floatToRat? f with
   | some r => ratJ r
   | none => .str (if f.isNaN then "nan" else if f > 0 then "inf" else "-inf")
 
-def floatIO : NumIO Float := { ofRat := ratToFloat, toJ := floatJ }
-def ratIO : NumIO Rat := { ofRat := id, toJ := ratJ }
+def floatSpecial : String → Option Float
+  | "nan" => some (0.0 / 0.0)
+  | "inf" => some (1.0 / 0.0)
+  | "-inf" => some (-1.0 / 0.0)
+  | _ => none
+
+def floatIO : NumIO Float := { ofRat := ratToFloat, toJ := floatJ, special := floatSpecial }
+def ratIO : NumIO Rat := { ofRat := id, toJ := ratJ, special := fun _ => none }
 
 section
 variable {α : Type} [Add α] [Sub α] [Mul α] [Div α] [Neg α] [LT α] [LE α] [OfNat α 0] [DecidableLT α] [DecidableLE α]
 
-def jNum (io : NumIO α) (j : Json) (k : String) : Except String α := do pure (io.ofRat (← jRat j k))
+/-- a number: the exact n/d of a double, or one of the strings "nan" / "inf" / "-inf" -/
+def jNumOf (io : NumIO α) (v : Json) : Except String α :=
+  match v with
+  | .str s =>
+    match io.special s with
+    | some x => pure x
+    | none => do pure (io.ofRat (← jRatOf v))
+  | _ => do pure (io.ofRat (← jRatOf v))
+
+def jNum (io : NumIO α) (j : Json) (k : String) : Except String α :=
+  match jOpt j k with
+  | none => throw s!"missing {k}"
+  | some v => jNumOf io v
 
 def jNumOpt (io : NumIO α) (j : Json) (k : String) : Except String (Option α) :=
   match jOpt j k with
   | none => pure none
-  | some v => do pure (some (io.ofRat (← jRatOf v)))
+  | some v => do pure (some (← jNumOf io v))
 
 def cfgOf (io : NumIO α) (j : Json) : Except String (GmxV2.Config α) := do
   pure { impactExponent := ← jNum io j "swapImpactExponentFactor", impactFactorPos := ← jNum io j "swapImpactFactorPositive",
@@ -207,7 +233,7 @@ def step2 (io : NumIO α) (o : GmxV2.Ops α) (j : Json) : Except String Json := 
   let op ← jObj j "op"
   match ← jStr op "kind" with
   | "deposit" =>
-    let (r, s') := GmxV2.deposit o cx cfg ps lk sk s (← jNum io op "long") (← jNum io op "short")
+    let (r, s') := GmxV2.deposit o cx cfg ps lk sk s (← jNum io op "long") (← jNum io op "short") (jFlag j "allowNeg")
     match r with
     | .ok (res, tag) => pure (Json.mkObj [("outcome", .str "ok"), ("result", lpJ io res), ("state", state2J io s'), ("tag", .str tag)])
     | .error e => pure (Json.mkObj [("outcome", .str e.name), ("state", state2J io s'), ("tag", .str "-")])
@@ -231,7 +257,8 @@ def events2 (io : NumIO α) (ops : GmxV2.Ops α) (j : Json) : Except String Json
   let mut o : GmxV2.Obj α :=
     { cfg := ← cfgOf io (← jObj j "config"), longKey := ← jStr j "longKey", shortKey := ← jStr j "shortKey",
       row := ← poolOf io (← jObj j "pool0"),
-      st := { amount := ← jNum io sj "amount", wallet := ← walletOf sj "wallet", actions := [] } }
+      st := { amount := ← jNum io sj "amount", wallet := ← walletOf sj "wallet", actions := [] },
+      allowNeg := jFlag j "allowNeg" }
   let mut out : Array Json := #[]
   for e in (← jArr j "events") do
     let n0 := o.st.actions.length
